@@ -712,7 +712,7 @@ def classify(stage, prog, msg=""):
     if bad_attr and "inline-in-body-below-import" in feats and feats <= body_family:
         return "adapt:body-own-opsets:inline-in-body"
     if stage in ("build-raises-InferenceError", "construct-raises-InferenceError") and "expect a" in msg \
-            and feats == {"ref-attr-converted"}:
+            and "ref-attr-converted" in feats and feats <= (body_family | {"ref-attr-converted", "inline-converted"}):
         return "adapt:ref-attribute-in-function-body:build-fails"
     if bad_attr and feats == {"inline-below-14-target-14"}:
         return "adapt-inline:source-below-14:not-converted"
